@@ -310,6 +310,11 @@ def run(ctx):
         ctx.gen_obligation("Gen_Conn.v type-checks", r.ok, r.err[-300:])
         ok = r.ok
     if ok:
+        okb, errb = ctx.gen("nv_blocks.py", "Gen_NvBlocks.v")
+        ctx.gen_obligation("translator nv_blocks.py (NV decomposition table, for the transpile/instantiate clause)", okb, errb.strip()[-300:])
+        if okb:
+            rb = ctx.coqc("Gen_NvBlocks.v")
+            ctx.gen_obligation("Gen_NvBlocks.v type-checks", rb.ok, rb.err[-300:])
         ctx.props("C06")
     ctx.trusted += ["gen/conn_tables.py: reads the live list netqasm.lang.parsing.text._REPLACE_CONSTANTS_EXCEPTION",
                     "harness/sdk_pipeline.py (in-process connection/controller, RecExecutor with scripted outcomes); "
